@@ -391,6 +391,23 @@ func C10(c *Ctx) {
 			}
 		}
 	}
+	// every dirty key is visited: a callback of dirtyState.Range that returns false ends the whole iteration, and
+	// sync.Map visits keys in no particular order - the keys not yet visited are silently left out
+	for _, cb := range rangeCallbacks {
+		stops := ""
+		for _, ret := range core.Returns(cb) {
+			if len(ret.Results) != 1 {
+				continue
+			}
+			for _, o := range core.RetOrigins(ret.Results[0]) {
+				if k, isC := core.Strip(o.V).(*ssa.Const); !isC || k.Value == nil || k.Value.ExactString() != "true" {
+					stops = c.P.Pos(ret.Pos())
+				}
+			}
+		}
+		r.Check(stops == "", "R10.2", cbOwner[cb]+": the walk over the dirty keys is never cut short ("+core.FnName(cb)+")", c.P.Pos(cb.Pos()), "every return of the Range callback is the constant true",
+			"the callback handed to dirtyState.Range can return false (at "+stops+"): sync.Map.Range stops there, and the dirty keys that happen to come later in its unordered walk are neither journaled, hashed into the state root nor written - which keys are lost differs from run to run")
+	}
 	isOriginLoad := func(v ssa.Value) bool {
 		cc, ok := v.(*ssa.Call)
 		if !ok || core.CalleeName(cc) != "(*sync.Map).Load" {
